@@ -568,6 +568,8 @@ def rule_wq_requester(ctx, rep):
     rep.must_take_edge("C16.wqreq", "resume.returns-only-unPAUSED", rw, [ands[0].inst], None, cl, to_exit=True, include_start=False, what="resume_worker returns only after the worker cleared PAUSED")
 
 
+META["explanation"] += " " + "Also (rounds 10-11): the parent clears exactly PAUSE and waits for PAUSED to drop, wait-loop polarity in before_fork / after_fork_parent, the helper re-registers after resume, bp's prune loop visits slots 0..capacity-1 in steps of one."
+
 RULES = [
     ("C16.handoff", rule_handoff),
     ("C16.handoff", rule_bp_handoff),
